@@ -90,6 +90,9 @@ func main() {
 			usage()
 		}
 		os.Exit(mc.Replay(props, self, os.Args[2]))
+	case "race":
+		i, _ := strconv.Atoi(os.Args[2])
+		c18RaceMain(i)
 	case "worker":
 		mc.WorkerMain(findHarness(os.Args[2]), os.Args[3:])
 	case "one":
